@@ -32,6 +32,7 @@ func init() {
 			{Rule: "DISTINCT", Bad: "canaryBadNoUnique", Good: "canaryGoodUnique"},
 			{Rule: "KIND-CALL", Bad: "canaryBadSwapZoom", Good: "canaryGoodZoomCall"},
 			{Rule: "VERBATIM", Bad: "canaryBadVerbatim", Good: "canaryGoodVerbatim"},
+			{Rule: "SAMEZOOM", Bad: "canaryBadSameZoom", Good: "canaryGoodSameZoom"},
 		}})
 	register(&propSpec{ID: "C04", Level: "other", Run: runC04,
 		Explain: otherNote + "C04: decided = the ancestor computation floors the vertical index; the result is de-duplicated; the unit zooms of the division are final per-axis maxima over all inputs (not a running maximum in use, not one element's zooms); no input, unit or group is dropped; an input is passed through unmerged only if it is coarser than the target on some axis and is a merge candidate otherwise (finite ordering enumeration over (hZoom vs target, vZoom vs target)); wrapper delegation; no element of the input list reaches the result unparsed.",
@@ -105,6 +106,7 @@ func runC03(w *World, r *Report, tier string) {
 	ruleNoSkip(w, r, "integrate.ChangeExtendedSpatialIdsZoom")
 	ruleVerbatim(w, r, "integrate.ChangeExtendedSpatialIdsZoom")
 	rulePackKey(w, r, nil)
+	ruleSameZoom(w, r, "integrate.ChangeExtendedSpatialIdsZoom")
 	guardRows(w, r, "C03")
 }
 
